@@ -1492,6 +1492,8 @@ class Interp:
             elif is_abstract(a) or is_abstract(b):
                 if a is b:
                     r = True
+                elif (b is None and not isinstance(a, Unknown)) or (a is None and not isinstance(b, Unknown)):
+                    r = False       # a domain value that can stand for None says so itself (abs_is); the others are objects
                 else:
                     r = Unknown('is')
             else:
